@@ -121,8 +121,7 @@ def generate(rng, config):
         n = rng.choice([8, 9, 10])
         k = rng.choice([0, 1, 2, 3, n, n + 1])
     if config == "cli":
-        n = max(1, n)
-        k = max(1, min(k, n + 1))
+        k = min(k, n + 1)
     nplant = rng.choice([0, 0, 0, 1, 1, 2, 3])
     planted = []
     for _ in range(nplant):
